@@ -86,6 +86,7 @@ impl<'a, T: ToTokens + ?Sized> ToTokens for &'a T {
 
 pub mod __private {
     pub use core::stringify;
+    pub use super::__private_rep::push_all;
     pub use super::TokenStream;
     pub use super::Delimiter;
     use super::*;
@@ -123,5 +124,29 @@ pub mod __private {
         push_pound "#" push_question "?" push_rarrow "->" push_larrow "<-" push_rem "%" push_rem_eq "%=" push_fat_arrow "=>"
         push_semi ";" push_shl "<<" push_shl_eq "<<=" push_shr ">>" push_shr_eq ">>=" push_star "*" push_sub "-" push_sub_eq "-="
         push_underscore "_"
+    }
+}
+
+// ---- [verif model] quote's single-variable repetition `#(#v)*` ----
+verus! {
+// concatenation of a sequence of token sequences
+pub open spec fn flat(s: Seq<Seq<Tok>>) -> Seq<Tok>
+    decreases s.len(),
+{
+    if s.len() == 0 { Seq::<Tok>::empty() } else { s[0] + flat(s.drop_first()) }
+}
+
+pub trait RepToTokens {
+    // the token sequences of the elements, in iteration order
+    spec fn rep_toks(&self) -> Seq<Seq<Tok>>;
+}
+}
+pub mod __private_rep {
+    use super::*;
+    verus! {
+    #[verifier::external_body]
+    pub fn push_all<T: RepToTokens>(tokens: &mut TokenStream, v: &T)
+        ensures final(tokens)@ == old(tokens)@ + flat(v.rep_toks()),
+    { unimplemented!() }
     }
 }
